@@ -286,9 +286,9 @@ static void apply(run_t *r, op_t o, const hist_t *h, int check) {
         } break;
         }
         if (check) {
-            /* the error record (code, converter message) is consistent in every reachable state: eav_errstr has a text to give, whatever
+            /* the error record (code, converter message) is consistent in every reachable state: while an error code is recorded eav_errstr has a text to give, whatever
              * sequence of set-ups, validations and re-initialisations led here (a caller prints it right after any of them) */
-            { const char *ms = l->errstr(obj); if (!ms || !ms[0]) violation_h("errstr", "errstr:null-or-empty-in-a-reachable-state", h, "[%s] eav_errstr returned %s", l->name, ms ? "an empty string" : "NULL"); }
+            if (l->get_errcode(obj) != 0) { const char *ms = l->errstr(obj); if (!ms || !ms[0]) violation_h("errstr", "errstr:null-or-empty-in-a-reachable-state", h, "[%s] error code %d is recorded, but eav_errstr returned %s", l->name, l->get_errcode(obj), ms ? "an empty string" : "NULL"); }
             if (l->ledger_double_free()) violation_h("ledger", "ledger:double-free", h, "[%s] a block was freed twice", l->name);
             if (l->ledger_foreign_free()) violation_h("ledger", "ledger:free-of-unknown-pointer", h, "[%s] free() of a pointer the library never obtained", l->name);
             if (l->ledger_live() > 1 + (TWO_OBJECTS ? 1 : 0)) violation_h("ledger", "ledger:previous-result-not-released", h, "[%s] %d blocks live (at most one result record may be)", l->name, l->ledger_live());
@@ -517,6 +517,7 @@ static void setup_values(long shard, void *arg) {
 
 /* ---------------------------------------------------------------- C18, E-INPUT part: the corpora through the three builds side by side */
 static void *COBJ[3][4][2]; static int CURPH; static int C_CORPUS;
+static int CHAS[3][4][2];
 static void corpus_sink(const unsigned char *s, size_t n, void *arg) {
     (void)arg; static char buf[70100]; if (n + 2 > sizeof buf) return;
     for (size_t i = 0; i < n; i++) if (!s[i]) return;
@@ -524,7 +525,19 @@ static void corpus_sink(const unsigned char *s, size_t n, void *arg) {
     mc_current(corpus_name(CURPH), "", s, n); MC_ADD(C_CORPUS, 1);
     for (int m = 0; m < 4; m++) for (int t = 0; t < 2; t++) {
         char out[3][512];
-        for (int li = 0; li < NLIB; li++) { int r = LIB[li].is_email(COBJ[li][m][t], buf, n); LIB[li].outcome(COBJ[li][m][t], r, out[li], sizeof out[li]); MC_ADD(C_EVAL, 1); }
+        for (int li = 0; li < NLIB; li++) {
+            /* "... and leaks no resource": the allocator ledger of each back end around every call - the object keeps at most its one result record,
+             * so a call may add one block to the live set the first time the object is used and none afterwards */
+            int l0 = LIB[li].ledger_live();
+            int r = LIB[li].is_email(COBJ[li][m][t], buf, n); LIB[li].outcome(COBJ[li][m][t], r, out[li], sizeof out[li]); MC_ADD(C_EVAL, 1);
+            int l1 = LIB[li].ledger_live(), allowed = l0 + (CHAS[li][m][t] ? 0 : 1); CHAS[li][m][t] = 1;
+            if (l1 > allowed || LIB[li].ledger_double_free() || LIB[li].ledger_foreign_free()) {
+                char cfg[48]; snprintf(cfg, sizeof cfg, "mode=%d tld=%d", m, t);
+                mc_violation(n > MC_CASEMAX ? "noreplay-long-input" : corpus_name(CURPH), l1 > allowed ? "backend:corpus-call-leaks" : "backend:corpus-call-frees-twice-or-foreign", "", cfg, s, n,
+                             "[%s] live blocks %d -> %d around one eav_is_email (at most %d expected), double frees %d, foreign frees %d", LIB[li].name, l0, l1, allowed, LIB[li].ledger_double_free(), LIB[li].ledger_foreign_free());
+                LIB[li].ledger_reset(); for (int a = 0; a < 4; a++) for (int b = 0; b < 2; b++) CHAS[li][a][b] = 0;      /* re-base: one report per cause */
+            }
+        }
         for (int li = 1; li < NLIB; li++) if (strcmp(out[0], out[li])) {
             char cfg[48]; snprintf(cfg, sizeof cfg, "mode=%d tld=%d", m, t);
             mc_violation(n > MC_CASEMAX ? "noreplay-long-input" : corpus_name(CURPH), "backend:corpus-outcome-differs", "", cfg, s, n, "[%s] %s ; [%s] %s", LIB[0].name, out[0], LIB[li].name, out[li]);
